@@ -4,7 +4,7 @@
    is currently decided by the correspondence and the implementation-level search only. *)
 From Coq Require Import List ZArith Bool.
 From PMH Require Import Lib.ListArr Model.SetSketch Proofs.SetSketch
-  Model.SuperMinHash Model.DensMinHash Gen.Flags Proofs.DensMinHash.
+  Model.SuperMinHash Model.DensMinHash Gen.FlagsSmh Gen.FlagsDens Proofs.DensMinHash.
 Import ListNotations.
 Open Scope Z_scope.
 
